@@ -380,6 +380,12 @@ def call_builtin(ex, name, args, kwargs, node):
       return VInt(v.len)
     if isinstance(v, VTuple):
       return VInt(len(v.items))
+    if isinstance(v, VStr):
+      if v.native:
+        return VInt(z3.Length(v.e))
+      n = sym.ufun('str_len', sym.Str, sym.IntS)(v.e)
+      ex.path.assume(n >= 0)
+      return VInt(n)
     r = getattr(ex.world, 'len_of', lambda *a: None)(ex, v, node)
     if r is not None:
       return r
